@@ -50,7 +50,7 @@ CLAIMS["C11"] = dict(
          "precision domain by interpreting the function prefix, NoClip early return, succeeded_ re-armed by every Execute, and (no-exceptions "
          "build) error codes consumed before a result is produced (no call site resolves to a function that ends with an unread, possibly set "
          "local error code; a valueless return on the error path has emptied every result-typed output parameter) and every DoError paired with an "
-         "error-code update. Genuine defects found are "
+         "error-code update; every result container an Execute overload receives is emptied on every path (the NoClip and error returns included). Genuine defects found are "
          "listed in known_findings.json (D8-D10) or repaired by fix: commits (D7, D13).",
     note="Does not decide that Execute returns true for all geometry (AddLocalMaxPoly mismatch reachability). Parameters are recognised by name "
          "(precision, decimal_prec, decimalPlaces) and int type.",
@@ -121,7 +121,7 @@ CLAIMS["C05"] = dict(
          "paths; DoHorizontal keeps its end-of-segment tests active for a horizontal open end; BuildPath64 and BuildPathD treat open paths alike; the builders pass isOpen according to outrec->is_open and are "
          "handed a real open-solution object by every caller (a null one would send open records down the closed branch); an edge that stops "
          "contributing clears its output record's pointer to itself (front_edge iff IsFront), at all three sites; has_open_paths_ is only ever "
-         "switched on where paths are added.",
+         "switched on where paths are added; the collinear / spike trimming of horizontals (TrimHorz) is only ever applied under a test that the edge is not open.",
     note="Positions of the cuts, lengths and independence of the closed solution are NOT decided.",
     technique="static analysis: abstract interpretation of decision code over finite partitions + sibling identity",
     design="§3 E3/E6, §4 C05", engine="E3")
@@ -174,7 +174,7 @@ CLAIMS["C15"] = dict(
          "storing the point; SetZ's decision table (end point z first, subject before clip, else DefaultZ); ClipperD's proxy callback follows the user's "
          "SetZCallback at every Execute (CheckCallback table, called before ExecuteInternal); a point that is only given new x and y "
          "(GetSegmentIntersectPt's out-parameter) is a local of the innermost enclosing loop, so it carries the default z; in the conversion layer (ScalePath(s), BuildPath64/D, PolyPath64/D, C "
-         "converters) a vertex made from one vertex's x and y has a z argument; no path assigns such an out-parameter as a whole before giving it new x / y.",
+         "converters) a vertex made from one vertex's x and y has a z argument; no path assigns such an out-parameter as a whole before giving it new x / y; no Execute overload writes the Z callback of a Clipper64 (a second operation on the same object sees the same callback).",
     note="Sufficient-condition check: a one-sided behaviour-preserving rewrite of an #ifdef branch is reported. Trusted: callbacks write only pt.z. "
          "NOT decided: that the vertex a callback saw survives CleanCollinear.",
     technique="static analysis: AST alignment modulo named patterns + forward may-pending dataflow + interpreted decision table",
@@ -201,7 +201,7 @@ CLAIMS["C03"] = dict(
          "(must-precede dataflow over all 7 builder call sites); CleanCollinear's removal condition table; BuildPath's degenerate-ring guard table and "
          "duplicate-skipping copy loop; option members written only by their setters; OutRec::path built only in CheckBounds; D builders equal 64 builders; "
          "IsCollinear / CrossProduct / DotProduct (the collinearity and spike tests) are the textbook polynomials (engine E14); the builders' index loops "
-         "over outrec_list_ re-read its size, so rings split off while building are cleaned and emitted too.",
+         "over outrec_list_ re-read its size, so rings split off while building are cleaned and emitted too; every method that can add local minima invalidates the sorted flag (minima popped out of order leave edges extended past their top vertex).",
     note="Bounding box, zero area, spikes, crossings, orientation-vs-nesting, collinearity of the result and idempotence under Union are NOT decided.",
     technique="static analysis: must-precede dataflow + interpreted condition tables + sibling identity",
     design="§3 E10/E3/E6, §4 C03", engine="E10")
@@ -240,7 +240,7 @@ CLAIMS["C20"] = dict(
          "input (never a computed vertex), inside loops through forward-only cursors; keep/remove flags are monotone; StripDuplicates only erases; "
          "TrimCollinear's corner test is made against the last kept vertex; SimplifyPath's pinned end distances are never overwritten; every "
          "distance/epsilon comparison of SimplifyPath and RDP draws the line at 'removable iff distance <= epsilon'; GetBounds' min/max update table and sentinels (a maximum starts at lowest(), not at the smallest positive value); every argument bound to an epsilon / squared-epsilon parameter has that degree; RDP examines each sub-span exactly when it has an interior vertex; Ellipse and TranslatePath "
-         "satisfy their defining formulas; "
+         "satisfy their defining formulas; the trailing-duplicate removal of a closed path (StripDuplicates, StripNearEqual) is a loop whose condition re-tests the new last point; "
          "PerpendicDistFromLineSqrd, DistanceSqr and IsCollinear are their defining polynomials (engine E14). "
          "The one flag-clearing site (RDP) is a genuine defect recorded as a known finding (D11).",
     note="Epsilon guarantees, area preservation, idempotence and the exact corner set are NOT decided.",
@@ -257,7 +257,7 @@ CLAIMS["C06"] = dict(
          "definition of a reversed group, the output target set by every Execute overload, closing-vertex stripping per end type, x/y identical "
          "with and without USINGZ in every offsetter function, the join formulas as polynomial normal forms and the join dispatch on convex "
          "vertices (Miter within the limit else Square; Round; Bevel; Square), no return before the clean-up union except on 'no input / no "
-         "output / error', the caller's delta_ read only where the orientation-corrected group_delta_ is derived, and "
+         "output / error', the caller's delta_ read only where the orientation-corrected group_delta_ is derived, the result container emptied before anything is added (also through the member pointer that aliases it), and "
          "independence of the groups of one ClipperOffset (loop-carried-state dataflow); tables extracted by interpreting the AST over the complete finite domain of the flags.",
     note="What the joined offset curves enclose - tolerance bands, the square join's corner construction (DoSquare), concave vertices, shrinking "
          "beyond the inradius - is NOT decided; the formulas are decided as real-number formulas, not their floating-point evaluation.",
